@@ -20,6 +20,11 @@ definition mirrors (under /repo/libs/core/include/fcppt/ unless noted):
 * `moveClear`          — move_clear.hpp
 * `getOrInsert`, `getOrInsertWithResult` — container/get_or_insert.hpp, container/get_or_insert_with_result.hpp
 
+* `optMap` … `optCat`   — optional/map.hpp (through bind.hpp: `_function(move_if_rvalue<Optional>(_source.get_unsafe()))`), bind.hpp, from.hpp,
+                         alternative.hpp (`std::forward<Optional>(_optional1)`), filter.hpp (the predicate reads, then the whole optional is forwarded),
+                         to_container.hpp, join.hpp, combine.hpp, apply.hpp, sequence.hpp (all present: algorithm::map with
+                         `move_if_rvalue<Source>(_value.get_unsafe())`), cat.hpp
+
 The user's functions (part of the harness, see harness/c05.cpp): given an rvalue they move it
 through (same identity), given an lvalue they read it and make a new value (`derive`).
 -/
@@ -28,6 +33,7 @@ namespace Fcppt.C05
 inductive Op where
   | algMap | fold | foldBreak | mapConcat | mapOptional | reverse | join2 | join3
   | popBack | popFront | moveRangeMap | moveClear | getOrInsert | getOrInsertWithResult
+  | optMap | optBind | optFrom | optAlt | optFilter | optToContainer | optJoin | optCombine | optApply2 | optSequence | optCat
   deriving DecidableEq, Repr, Inhabited
 
 /-- Arguments (value category, element identities in container order) and the operation's
@@ -60,6 +66,9 @@ def deriveEach (a : Nat) (ks : List Nat) (d : Dest) : List Instr := ks.zipIdx.ma
 def whole (rv : Bool) (a n : Nat) (d : Dest) : List Instr :=
   if rv then [.steal a d] else xferAll a n .copy d
 
+/-- the user's function (or the library) reads every element -/
+def readAll (a n : Nat) : List Instr := (List.range n).map fun i => .read a i
+
 /-- `std::reverse(begin, end)`: ⌊n/2⌋ swaps -/
 def reverseInPlace (a n : Nat) : List Instr := (List.range (n / 2)).map fun i => .swap a i (n - 1 - i)
 
@@ -68,6 +77,7 @@ def reverseInPlace (a n : Nat) : List Instr := (List.range (n / 2)).map fun i =>
 def prog (o : Op) (inp : Input) : List Instr :=
   let n := inp.size
   let rv := inp.isRv
+  let par0 := inp.par.headD 0
   match o with
   | .algMap => callAll (rv 0) 0 (n 0) .res
   | .fold => .xfer 1 0 .move .res :: deriveEach 0 (List.replicate (n 0) 1) .res
@@ -89,6 +99,30 @@ def prog (o : Op) (inp : Input) : List Instr :=
   | .getOrInsert | .getOrInsertWithResult =>
     -- par = [k]: the key of element k; k = size: a key that is not in the map, the user's `create` makes value 1000
     if inp.par.headD 0 < n 0 then [] else [.fresh 1000 (.arg 0)]
+  -- optional: an argument is the content of the optional (no or one element)
+  | .optMap => callAll (rv 0) 0 (n 0) .res
+  | .optBind =>
+    -- par = [keep]: the user's function reads its argument and answers with an optional holding it (moved through / derived) or nothing
+    if rv 0 then readAll 0 (n 0) ++ (if par0 = 1 then xferAll 0 (n 0) .move .res else [])
+    else deriveEach 0 (List.replicate (n 0) par0) .res
+  | .optFrom => if n 0 = 0 then [.fresh 1000 .res] else xferAll 0 (n 0) (fwd (rv 0)) .res
+  | .optAlt =>
+    -- par = [has]: what the alternative function returns
+    if n 0 = 0 then (if par0 = 1 then [.fresh 1000 .res] else []) else xferAll 0 (n 0) (fwd (rv 0)) .res
+  | .optFilter => readAll 0 (n 0) ++ (if par0 = 1 then xferAll 0 (n 0) (fwd (rv 0)) .res else [])
+  | .optToContainer => xferAll 0 (n 0) (fwd (rv 0)) .res
+  | .optJoin => xferAll 0 (n 0) (fwd (rv 0)) .res
+  | .optCombine =>
+    if n 0 = 0 then xferAll 1 (n 1) (fwd (rv 1)) .res
+    else if n 1 = 0 then xferAll 0 (n 0) (fwd (rv 0)) .res
+    else readAll 1 (n 1) ++ callAll (rv 0) 0 (n 0) .res
+  | .optApply2 => if n 0 = 0 ∨ n 1 = 0 then [] else readAll 1 (n 1) ++ callAll (rv 0) 0 (n 0) .res
+  | .optSequence =>
+    -- par = presence mask of the entries; the argument lists the elements of the present ones
+    if inp.par.all (· == 1) then xferAll 0 (n 0) (fwd (rv 0)) .res else []
+  | .optCat => xferAll 0 (n 0) (fwd (rv 0)) .res
+
+def jn (b : Bool) : String := if b then "J" else "N"
 
 /-- the shape of the result (which alternative, present/absent, the element a returned reference points to) -/
 def tag (o : Op) (inp : Input) : String :=
@@ -102,6 +136,12 @@ def tag (o : Op) (inp : Input) : String :=
     match (inp.ids 0)[inp.par.headD 0]? with
     | some x => s!"R{x}/0"
     | none => "R1000/1"
+  | .optMap | .optJoin => jn (inp.size 0 == 1)
+  | .optBind | .optFilter => jn (inp.size 0 == 1 && inp.par.headD 0 == 1)
+  | .optAlt => jn (inp.size 0 == 1 || inp.par.headD 0 == 1)
+  | .optCombine => jn (inp.size 0 == 1 || inp.size 1 == 1)
+  | .optApply2 => jn (inp.size 0 == 1 && inp.size 1 == 1)
+  | .optSequence => jn (inp.par.all (· == 1))
   | _ => "-"
 
 /-! ## well-formed inputs -/
@@ -130,6 +170,16 @@ def shapeOk (o : Op) (inp : Input) : Bool :=
   | .moveRangeMap => inp.args.length == 1 && catIn inp 0 [.rv] && inp.par.isEmpty
   | .getOrInsert | .getOrInsertWithResult =>
     inp.args.length == 1 && catIn inp 0 [.io] && inp.par.length == 1 && inp.par.headD 0 ≤ n 0
+  | .optMap | .optFrom | .optToContainer => inp.args.length == 1 && catIn inp 0 anyCat && n 0 ≤ 1 && inp.par.isEmpty
+  | .optBind | .optAlt | .optFilter =>
+    inp.args.length == 1 && catIn inp 0 anyCat && n 0 ≤ 1 && inp.par.length == 1 && inp.par.headD 0 ≤ 1
+  | .optJoin =>
+    -- par = [outer]: whether the outer optional holds an (inner) optional
+    inp.args.length == 1 && catIn inp 0 anyCat && n 0 ≤ 1 && inp.par.length == 1 && inp.par.headD 0 ≤ 1 && n 0 ≤ inp.par.headD 0
+  | .optCombine | .optApply2 =>
+    inp.args.length == 2 && catIn inp 0 anyCat && catIn inp 1 anyCat && n 0 ≤ 1 && n 1 ≤ 1 && inp.par.isEmpty
+  | .optSequence | .optCat =>
+    inp.args.length == 1 && catIn inp 0 anyCat && inp.par.all (· ≤ 1) && inp.par.count 1 == n 0
 
 def wf (o : Op) (inp : Input) : Bool := idsOk inp && shapeOk o inp
 
@@ -138,11 +188,15 @@ def exec (o : Op) (inp : Input) : St := run (prog o inp) (St.init (inp.args.map 
 
 def Op.all : List Op :=
   [.algMap, .fold, .foldBreak, .mapConcat, .mapOptional, .reverse, .join2, .join3,
-   .popBack, .popFront, .moveRangeMap, .moveClear, .getOrInsert, .getOrInsertWithResult]
+   .popBack, .popFront, .moveRangeMap, .moveClear, .getOrInsert, .getOrInsertWithResult,
+   .optMap, .optBind, .optFrom, .optAlt, .optFilter, .optToContainer, .optJoin, .optCombine, .optApply2, .optSequence, .optCat]
 
 def Op.name : Op → String
   | .algMap => "algmap" | .fold => "fold" | .foldBreak => "foldbrk" | .mapConcat => "mapcat" | .mapOptional => "mapopt"
   | .reverse => "reverse" | .join2 => "join2" | .join3 => "join3" | .popBack => "popback" | .popFront => "popfront"
   | .moveRangeMap => "mrmap" | .moveClear => "moveclear" | .getOrInsert => "goi" | .getOrInsertWithResult => "goiwr"
+  | .optMap => "optmap" | .optBind => "optbind" | .optFrom => "optfrom" | .optAlt => "optalt" | .optFilter => "optfilter"
+  | .optToContainer => "opttocont" | .optJoin => "optjoin" | .optCombine => "optcombine" | .optApply2 => "optapply2"
+  | .optSequence => "optseq" | .optCat => "optcat"
 
 end Fcppt.C05
